@@ -188,7 +188,10 @@ def resolve_typedefs(u, qt):
 class Interp:
     """Interprets loop-free functions of one unit."""
 
-    def __init__(self, unit, big_endian=False, linear_tables=None, max_depth=8):
+    def __init__(self, unit, big_endian=False, linear_tables=None, max_depth=8, hooks=None,
+                 skip_guard_returns=False):
+        self.hooks = hooks or {}
+        self.skip_guard_returns = skip_guard_returns
         self.u = unit
         self.big = big_endian
         self.linear_tables = linear_tables or {}   # name -> (list of ints, elemwidth)
@@ -566,6 +569,9 @@ class Frame:
                 r = bnot(r)
             return BV([r] + [ZERO] * 31, True)
         ca, cb = a.const_value(), b.const_value()
+        if op in ('<', '>=') and cb == 0 and a.signed and ca is None:
+            sb = a.bits[-1]
+            return BV([sb if op == '<' else bnot(sb)] + [ZERO] * 31, True)
         if ca is not None and cb is not None:
             if op == '+':
                 return BV.const(ca + cb, w, a.signed and b.signed)
@@ -590,6 +596,8 @@ class Frame:
                 j = nb - 1 - i
                 out += bits[8 * j:8 * j + 8]
             return BV(out, False)
+        if name in self.ip.hooks:
+            return self.ip.hooks[name](self, args, n)
         if name is None:
             raise Unsupported('indirect call')
         if self.ip.u.fn(name) is None:
@@ -659,6 +667,9 @@ class Frame:
             return
         if k == 'IfStmt':
             inn = s['inner']
+            if self.ip.skip_guard_returns and len(inn) == 2 and _only_returns(inn[1]):
+                self.skipped_guards = getattr(self, 'skipped_guards', []) + [inn[0]]
+                return
             c = self.nonzero(self.rvalue(inn[0])).bits[0]
             if is_const(c):
                 if c[0]:
@@ -708,6 +719,15 @@ class Frame:
             self.declare(d, self.rvalue(init) if init is not None else None)
             return
         self.declare(d, self.rvalue(init) if init is not None else None)
+
+
+def _only_returns(n):
+    if cast.kind(n) == 'ReturnStmt':
+        return True
+    if cast.kind(n) == 'CompoundStmt':
+        inn = [x for x in cast.inner(n) if cast.kind(x) != 'NullStmt']
+        return len(inn) == 1 and cast.kind(inn[0]) == 'ReturnStmt'
+    return False
 
 
 # patch table lookups into rvalue for ArraySubscript on global const arrays
